@@ -106,7 +106,7 @@ func newHostWorld(t *testing.T) *hostWorld {
 		t.Fatal(err)
 	}
 	res := make(chan error)
-	if _, err := w.node.Volumes.AddVolume(context.Background(), filepath.Join(t.TempDir(), "storage.dat"), 24, res); err != nil {
+	if _, err := w.node.Volumes.AddVolume(context.Background(), filepath.Join(t.TempDir(), "storage.dat"), 96, res); err != nil {
 		t.Fatal(err)
 	} else if err := <-res; err != nil {
 		t.Fatal(err)
